@@ -85,6 +85,10 @@ void myth_verif_fspin(const char *label);
 #define MYTH_VERIF_EVQ2(n,a,b,len) myth_verif_ev(n, 3, (long)(a), (long)(b), (long)(len))
 #define MYTH_VERIF_EVQZ2(n,a,b,len) myth_verif_evzk(n, 2, 3, (long)(a), (long)(b), (long)(len))
 #define MYTH_VERIF_EVQZ3(n,a,b,c,len) myth_verif_evzk(n, 3, 4, (long)(a), (long)(b), (long)(c), (long)(len))
+/* what the context really holds when the event is emitted (amd64): its stack pointer lies just below the given
+   stack top; the word it points to (the address the first switch jumps to) */
+#define MYTH_VERIF_CTX_IN_STACK(ctx, top) ((ctx)->rsp != 0 && (char*)(ctx)->rsp <= (char*)(top) && (char*)(ctx)->rsp > (char*)(top) - 64)
+#define MYTH_VERIF_CTX_ENTRY(ctx) (*(void**)(ctx)->rsp)
 /* logged only for locks that were given an id with VL() (descriptor locks, user spin locks) */
 #define MYTH_VERIF_EVLOCK(n,l) myth_verif_evlock(n, (const void*)(l))
 #define MYTH_VERIF_CHOOSE(lo,hi) myth_verif_choose((lo),(hi))
